@@ -8,3 +8,17 @@ Theorem C12_decode : forall (A : Type) (parse : bytes -> outcome A), (forall r, 
   forall cs, nonempty_chunks cs -> agree (decode_via parse (reader_run cs)) (decode_via parse (strip_junk_header (concat cs))).
 Proof. exact @HeaderProofs.C12_decode. Qed.
 Print Assumptions C12_decode.
+
+(* a base64 data URL decodes to the same map as its payload: for every payload and every accepted preamble,
+   whatever the slice decoder does with the payload (section variable) *)
+From SM Require Import Spec.Base64 Model.DataUrl Proofs.Base64Proofs Proofs.DataUrlProofs.
+Theorem C12_data_url : forall (A : Type) (decode_slice : bytes -> outcome A) pre payload,
+  In pre PREAMBLES_IN -> Forall byte payload ->
+  decode_data_url decode_slice PREAMBLES_IN (pre ++ b64_encode payload) = decode_slice payload.
+Proof.
+  intros A decode_slice pre payload Hin Hb.
+  assert (Hacc : accepts PREAMBLES_IN pre = true).
+  { unfold PREAMBLES_IN in Hin. cbn [In] in Hin. destruct Hin as [<-|[<-|[]]]; vm_compute; reflexivity. }
+  unfold decode_data_url. rewrite (accepts_strip PREAMBLES_IN pre Hacc), C18_b64 by exact Hb. reflexivity.
+Qed.
+Print Assumptions C12_data_url.
